@@ -180,7 +180,7 @@ def encRows (b : Backend) : String :=
 def encState (st : St) : String :=
   "ents=[" ++ " | ".intercalate (st.ents.map encEntry) ++ "] L:" ++ encIx st.ix0 ++ " R:" ++ encIx st.ix1 ++
     " cs=" ++ encNats st.changeset ++ " dirty=" ++ encNats st.dirty ++ " rows=" ++ encRows st.store ++
-    " ghost=" ++ encNats st.silent ++ encNats st.gone ++ encBool st.goneTouched
+    " ghost=" ++ encNats st.silent
 
 def decSd (t : String) : Option Sd :=
   if t == "0" then some false else if t == "1" then some true else none
